@@ -16,7 +16,7 @@
      statement is kept in the comment above them. *)
 From Coq Require Import List ZArith Bool Arith Lia.
 From SC Require Import Base.Res Base.PyList Inst.Heap Inst.ClassTable Inst.Model Inst.Canon
-  Inst.Abs Inst.SpecHelpers Inst.RefineProofs Inst.CopyProofs Inst.CopyStore Inst.RefineMore Inst.RefineMore2 Inst.RefineMore3 Inst.RefineMore4 Inst.RefineMore5 Inst.RefineMore6.
+  Inst.Abs Inst.SpecHelpers Inst.RefineProofs Inst.CopyProofs Inst.CopyStore Inst.RefineMore Inst.RefineMore2 Inst.RefineMore3 Inst.RefineMore4 Inst.RefineMore5 Inst.RefineMore6 Inst.RefineMore7.
 Import ListNotations.
 Open Scope nat_scope.
 
@@ -918,6 +918,70 @@ Proof.
   - split; [vm_compute; reflexivity|]. intros _. exact (proj1 (proj2 C05_example_inval)).
 Qed.
 
+(* ---------------- values built from nothing (Inst/RefineMore7.v) ---------------- *)
+(* with_<a>(_inplace=True) without a value (or with MISSING): an empty value of the declared
+   type is stored -- type(): 0, '', False, None (`empty_val`) -- and the preparer is NOT run;
+   Optional / Union / Any cannot be instantiated: TypeError, heap untouched.  `plain_ty`: the
+   annotation is neither a collection nor (optionally) a spec class.  Interpretation
+   decision (1) of docs/C05.md, now also a theorem about the model. *)
+Theorem C05_with_nothing_refines_partial : forall ct h0 l a c d k sp s,
+  nth_error (heap s) l = Some (OInst c d) -> lookup_cls ct c = Some k -> lookup_attr k a = Some sp ->
+  NoDup (map fst d) -> aok (absv (heap s) (VRef l)) = true ->
+  c_frozen k = false -> no_inval k -> fail_at s = None ->
+  ty_depth (a_ty sp) < FUEL -> plain_ty (a_ty sp) = true ->
+  let h := mkh [] true true VMissing false None None [] None in
+  let ah := mkah [] true true AMissing false None None [] None in
+  match run_helper ct l (HWith a) h s with
+  | (Ok r, s') => r = VRef l /\
+                  spec_helper ct h0 (absv (heap s) (VRef l)) (SWith a) ah = SOk (absv (heap s') (VRef l)) /\
+                  (forall i, i <> l -> nth_error (heap s') i = nth_error (heap s) i)
+  | (Err e, s') => spec_helper ct h0 (absv (heap s) (VRef l)) (SWith a) ah = SErr e /\ heap s' = heap s
+  end.
+Proof.
+  intros ct h0 l a c d k sp s Hl Hc Ha Hd Hok Hfz Hni Hfa Hty Hplain.
+  exact (with_nothing_inplace_refines ct h0 l a c d k sp s Hl Hc Ha Hd Hok Hfz Hni Hty Hplain).
+Qed.
+
+(* transform_<a>(f, _inplace=True) on an attribute that holds nothing (no own value, no
+   class-level default: cur_val = MISSING): f is applied to type() (interpretation
+   decision (5)), the result is prepared and stored *)
+Theorem C05_transform_nothing_refines_partial : forall ct h0 l a c d k sp s f,
+  nth_error (heap s) l = Some (OInst c d) -> lookup_cls ct c = Some k -> lookup_attr k a = Some sp ->
+  NoDup (map fst d) -> aok (absv (heap s) (VRef l)) = true ->
+  c_frozen k = false -> no_inval k -> fail_at s = None ->
+  ty_depth (a_ty sp) < FUEL -> plain_ty (a_ty sp) = true ->
+  match a_prepare sp with Some g => scalar_fn g = true | None => True end ->
+  scalar_fn f = true -> cur_val a d k = VMissing ->
+  let h := mkh [] true true VMissing false None None [] (Some f) in
+  let ah := mkah [] true true AMissing false None None [] (Some f) in
+  match run_helper ct l (HTransform a) h s with
+  | (Ok r, s') => r = VRef l /\
+                  spec_helper ct h0 (absv (heap s) (VRef l)) (STransform a) ah = SOk (absv (heap s') (VRef l)) /\
+                  (forall i, i <> l -> nth_error (heap s') i = nth_error (heap s) i)
+  | (Err e, s') => spec_helper ct h0 (absv (heap s) (VRef l)) (STransform a) ah = SErr e /\ heap s' = heap s
+  end.
+Proof.
+  intros ct h0 l a c d k sp s f Hl Hc Ha Hd Hok Hfz Hni Hfa Hty Hplain Hp Hf Hcur.
+  exact (transform_nothing_inplace_refines ct h0 l a c d k sp s Hl Hc Ha Hd Hok Hfz Hni Hfa Hty Hplain f Hp Hf Hcur).
+Qed.
+
+Example C05_example_nothing :
+  (* a1 : int -> 0 (NOT prepare(0) = 1);  a3 : Optional[int] -> TypeError *)
+  (let '(r, s') := run_helper ex_ct2 0 (HWith 1) (mkh [] true true VMissing false None None [] None) ex_state2 in
+   r = Ok (VRef 0) /\ nth_error (heap s') 0 = Some (OInst 2 [(1, VInt 0); (3, VInt 9)])) /\
+  spec_helper ex_ct2 [] (absv (heap ex_state2) (VRef 0)) (SWith 1) (mkah [] true true AMissing false None None [] None)
+    = SOk (AInst 2 [(1, AInt 0); (3, AInt 9)]) /\
+  (let '(r, s') := run_helper ex_ct2 0 (HWith 3) (mkh [] true true VMissing false None None [] None) ex_state2 in
+   r = Err TypeErr /\ s' = ex_state2) /\
+  spec_helper ex_ct2 [] (absv (heap ex_state2) (VRef 0)) (SWith 3) (mkah [] true true AMissing false None None [] None)
+    = SErr TypeErr /\
+  (* transform_a1(x+10) after a1 was deleted... a1 has a default, so use a class without one:
+     here the receiver lacks a3 (no default): Optional[int] cannot be instantiated *)
+  (let '(r, s') := run_helper ex_ct2 0 (HTransform 3) (mkh [] true true VMissing false None None [] (Some FId))
+                     (mkst [OInst 2 [(1, VInt 7)]] 0 None) in
+   r = Err TypeErr).
+Proof. vm_compute. repeat split. Qed.
+
 Print Assumptions C05_noop_if_false.
 Print Assumptions C05_noop_with_unchanged.
 Print Assumptions C05_noop_update_unchanged.
@@ -965,3 +1029,6 @@ Print Assumptions C05_transform_refines_inval_partial.
 Print Assumptions C05_reset_refines_inval_partial.
 Print Assumptions C05_update_top_refines_inval_partial.
 Print Assumptions C05_example_update_top_inval.
+Print Assumptions C05_with_nothing_refines_partial.
+Print Assumptions C05_transform_nothing_refines_partial.
+Print Assumptions C05_example_nothing.
